@@ -58,7 +58,7 @@ class C14(Check):
         "simulated": ["HTTP transport adapter", "static web server model "
                       "(nginx rules, Range)", "raw file I/O (SimFS)"],
     }
-    tiers = {"quick": dict(runs=1200, budget=60),
+    tiers = {"quick": dict(runs=5000, budget=60),
              "thorough": dict(runs=40000, budget=720)}
     expected_probes = ["sharded_fetch_ok", "legacy_pair_read", "gz_served",
                       "partial_206", "deep_alias", "absent_plain_dae",
